@@ -22,7 +22,7 @@ def plan(tier, seed):
     if q:
         conds += t1(2, 12, timeout=240)
         for ctx in range(1, len(H.CONTEXTS)):
-            conds += t1(2, 2, ctx=ctx, timeout=240)
+            conds += t1(2, 6, ctx=ctx, timeout=240)
         b = "arbitrary loaded set S x full vocabulary N=2 from the initial state and from %d context prefixes" % (len(H.CONTEXTS) - 1)
     else:
         conds += t1(3, 88, timeout=2400)
